@@ -7,7 +7,8 @@ mode "delay": runs the REAL dawgie.pl.schedule._delay for a specification built
     dawgie.pl.schedule (no source edit).
 mode "fire":  drives the REAL schedule.periodics / defer / next_job_batch /
     complete (through farm.dispatch and farm.Hand, see harness/sched_h.World) on
-    a generated engine with one periodic node; wall clock = virtual reactor
+    a generated engine with one or two periodic nodes in different packages (the
+    short algorithm names may coincide: t0.a and t1.a); wall clock = virtual reactor
     clock (MemoryReactorClock); the reactor's delayed calls are the timers.
 
 Instants are integer seconds since the epoch of the specification calendar
@@ -140,24 +141,27 @@ def run_delay(job):
 
 # ------------------------------------------------------------------- mode fire
 def fire_desc(cfg):
-    '''engine descriptor: one node with the events of the configuration'''
-    evs = []
-    for e in cfg['events']:
-        if e['k'] == 'boot':
-            evs.append({'boot': True})
-        elif e['k'] == 'day':
-            evs.append({'day': e['date'], 'time': [e['t'] // 3600, (e['t'] % 3600) // 60, e['t'] % 60]})
-        else:
-            evs.append({e['k']: e['n'], 'time': [e['t'] // 3600, (e['t'] % 3600) // 60, e['t'] % 60]})
-    return {
-        'base': 'vae',
-        'pkgs': [
+    '''engine descriptor: one package per periodic node "<pkg>.<alg>" with the events of the configuration'''
+    pkgs = []
+    for tag in sorted(cfg['nodes']):
+        node = cfg['nodes'][tag]
+        pkg, alg = tag.split('.')
+        evs = []
+        for e in node['events']:
+            hms3 = [e['t'] // 3600, (e['t'] % 3600) // 60, e['t'] % 60]
+            if e['k'] == 'boot':
+                evs.append({'boot': True})
+            elif e['k'] == 'day':
+                evs.append({'day': e['date'], 'time': hms3})
+            else:
+                evs.append({e['k']: e['n'], 'time': hms3})
+        pkgs.append(
             {
-                'name': 't0',
+                'name': pkg,
                 'algs': [
                     {
-                        'name': 'a',
-                        'kind': cfg['kind'],
+                        'name': alg,
+                        'kind': node['kind'],
                         'ver': [1, 0, 0],
                         'svs': [{'name': 's', 'ver': [1, 0, 0], 'vals': [{'name': 'v', 'ver': [1, 0, 0]}]}],
                         'refs': [],
@@ -166,12 +170,10 @@ def fire_desc(cfg):
                     }
                 ],
             }
-        ],
-    }
+        )
+    return {'base': 'vae', 'pkgs': pkgs}
 
 
-NODE = 't0.a'
-HORIZON = [0]
 MUTATE = [None]  # hook of the mutation self-test: called with the schedule module before a job
 
 
@@ -209,28 +211,31 @@ def run_fire(job):
         MUTATE[0](schedule)
     steps = []
 
-    def node():
-        return w.nodes()[NODE]
+    tags = sorted(cfg['nodes'])
 
     def snap():
-        n = node()
-        ex = [u['t'] for u in w.inflight if u['alg'] == NODE and not u['stale']]
-        ex += [(m.target if m.target else ALL) for m in sched_h.farm._cluster if m.jobid == NODE]
+        nodes = w.nodes()
+        ex = {tag: set() for tag in tags}
+        for u in w.inflight:
+            if not u['stale']:
+                ex[u['alg']].add(u['t'])
+        for m in sched_h.farm._cluster:
+            ex[m.jobid].add(m.target if m.target else ALL)
         timers = sorted(cfg['start'] + int(round(c.getTime() - r0)) for c in REACTOR.getDelayedCalls())
         return {
             'up': state['up'],
             'clock': instant(),
             'timers': timers,
-            'status': n.get('status').name,
-            'nque': sum(1 for j in schedule.que if j is n),
-            'todo': sorted(n.get('todo')),
-            'exec': sorted(set(ex)),
             'targets': sorted(w.targets),
             'nbooted': len(schedule.booted),
+            'status': {tag: nodes[tag].get('status').name for tag in tags},
+            'nque': {tag: sum(1 for j in schedule.que if j is nodes[tag]) for tag in tags},
+            'todo': {tag: sorted(nodes[tag].get('todo')) for tag in tags},
+            'exec': {tag: sorted(ex[tag]) for tag in tags},
         }
 
-    def log(ev, dt=0, t=''):
-        steps.append({'ev': ev, 'args': {'dt': dt, 't': t}, 'st': snap(), 'obs': {'err': state['err'], 'defers': state['defers']}})
+    def log(ev, dt=0, t='', n=''):
+        steps.append({'ev': ev, 'args': {'dt': dt, 't': t, 'n': n}, 'st': snap(), 'obs': {'err': state['err'], 'defers': state['defers']}})
         state['err'] = ''
         state['defers'] = 0
 
@@ -285,11 +290,11 @@ def run_fire(job):
         log('Dispatch')
         return True
 
-    def ev_complete(t):
+    def ev_complete(n, t):
         w.obs = sched_h.new_obs()
-        if not w.ev_reply(NODE, t, 'success', []):
+        if n not in tags or not w.ev_reply(n, t, 'success', []):
             return False
-        log('Complete', t=t)
+        log('Complete', t=t, n=n)
         return True
 
     def ev_newtarget():
@@ -313,7 +318,7 @@ def run_fire(job):
             elif ev == 'Dispatch':
                 ok = ev_dispatch()
             elif ev == 'Complete':
-                ok = ev_complete(e['t'])
+                ok = ev_complete(e['n'], e['t'])
             elif ev == 'NewTarget':
                 ok = ev_newtarget()
             else:
@@ -329,7 +334,7 @@ def run_fire(job):
                     moved = ev_dispatch()
                     while w.inflight:
                         u = [x for x in w.inflight if not x['stale']]
-                        if not u or not ev_complete(u[0]['t']):
+                        if not u or not ev_complete(u[0]['alg'], u[0]['t']):
                             break
                         moved = True
                     if not moved:
@@ -340,7 +345,10 @@ def run_fire(job):
         for c in list(REACTOR.getDelayedCalls()):
             c.cancel()
         w.close()
-    out_cfg = {'kind': cfg['kind'], 'start': cfg['start'], 'events': [{'k': e['k'], 'n': e['n'], 't': e['t']} for e in cfg['events']]}
+    out_cfg = {
+        'start': cfg['start'],
+        'nodes': {tag: {'kind': nd['kind'], 'events': [{'k': e['k'], 'n': e['n'], 't': e['t']} for e in nd['events']]} for tag, nd in cfg['nodes'].items()},
+    }
     return {'tid': job['id'], 'mode': 'fire', 'cfg': out_cfg, 'skipped': skipped, 'steps': steps}
 
 
@@ -385,6 +393,22 @@ def install_mutant(name):
 
             full = sched_h.dawgie.db.targets
             sched_h.dawgie.db.targets = lambda: full()[:1]
+
+        MUTATE[0] = mutate
+    elif name == 'boot_by_short_name':  # boot events remembered by the algorithm's short name -> BootFires
+        mutant = None
+
+        def mutate(sched):
+            def delay(when, real=real):
+                if when.moment.boot is None:
+                    return real(when)
+                key = when.algref.impl.name()
+                if key in sched.booted:
+                    raise sched._DelayNotKnowableError()
+                sched.booted.append(key)
+                return _FakeDateTime.now(real_datetime.UTC) - _FakeDateTime.now(real_datetime.UTC)
+
+            sched._delay = delay
 
         MUTATE[0] = mutate
     elif name == 'timer_late':  # the wake-up is requested an hour after the moment -> Armed
